@@ -122,6 +122,10 @@ Definition serialize_k (kf : name_key) (m : mode) (a : archive) : outcome bytes 
   let raw_pointers := raw_pointers1 ++ concat (map (fun g => isort N.leb (map (trunc_w 32) (snd g))) groups) in
   let file_size := dlen + lenN raw_cstrings + N.of_nat (length raw_pointers) * 4
                    + N.of_nat (length raw_labels) * 4 + p_len tpool2 + 32 in
+  (* `if file_size > u32::MAX as usize { return Err(OtherError(..)) }`, u32::MAX = 4294967295 (fix 524d15f, finding F25): every size, count, address
+     and offset of the file is stored in 32 bits; behind this guard none of the `as u32` below truncates and the u32 addition of
+     the data size cannot overflow (Proofs/BinSerializeConforms.v: assemble_exact) *)
+  _ <- guard (file_size <=? 4294967295) EOther ;;
   dsz <- add_w 32 m (trunc_w 32 dlen) (trunc_w 32 (lenN raw_cstrings)) ;;
   Ok (enc e 4 (trunc_w 32 file_size) ++ enc e 4 dsz ++ enc e 4 (trunc_w 32 (N.of_nat (length raw_pointers)))
       ++ enc e 4 (trunc_w 32 (N.of_nat (length raw_labels) / 2)) ++ zeros 16
